@@ -30,7 +30,7 @@ type Behaviour struct {
 	ConvertTo string `json:"convert_to,omitempty"`
 	// ConvertFailMsg: with ConvertTo, also put this failedMessage into the conversion response
 	ConvertFailMsg string `json:"convert_fail_msg,omitempty"`
-	// ConvertDrop: number of objects to drop from the converted list.
+	// ConvertDrop: number of objects to drop from the converted list (negative: that many surplus copies of the first object).
 	ConvertDrop int `json:"convert_drop,omitempty"`
 }
 
